@@ -49,6 +49,7 @@ def _run_task(task):
     res = dict(res)
     res["task"] = {k: v for k, v in task.items() if k not in ("cube",)}
     res["task"]["cube"] = str(task.get("cube", ""))
+    res["task_full"] = {k: v for k, v in task.items() if k != "cube"}
     return res
 
 
@@ -87,14 +88,44 @@ def replay_record(prop, record, timeout=120):
         return {"path": path, "reproduces": "timeout", "detail": f"replay did not finish within {timeout}s"}
 
 
+def recheck_real_order(prop, c):
+    """returns 'hazard' (no violation under the real oracle order), a replay verdict dict (violation that
+    reproduces), or None (still unexplained)"""
+    task = c.get("task_full")
+    if not task or task.get("params", {}).get("order", "canonical") == "real":
+        return None
+    from engine.ref import parse_bnet
+    try:
+        _, tables = parse_bnet(c["rules"])
+    except Exception:
+        return None
+    t = dict(task)
+    t["params"] = dict(task["params"], order="real")
+    t["start_at"] = {"tables": tables, "hist": c.get("hist", {})}
+    t["max_classes"] = 1
+    t.pop("cube", None)
+    r = run_tasks([t])[0]
+    if r.get("inconclusive"):
+        return None
+    if not r.get("violations"):
+        return "hazard"
+    v2 = r["violations"][0]
+    rec = {"property": prop, "rules": v2["rules"], "hist": v2.get("hist", {}), "params": t["params"], "label": c.get("label")}
+    v = replay_record(prop, rec)
+    return v if v.get("reproduces") is True else None
+
+
 def load_findings():
-    p = os.path.join(ROOT, "known_findings.jsonl")
+    """open findings from known_findings.txt ("open: {json}" lines); "fixed:" lines suppress nothing"""
+    p = os.path.join(ROOT, "known_findings.txt")
     out = []
     if os.path.exists(p):
         for ln in open(p):
             ln = ln.strip()
-            if ln and not ln.startswith("#"):
-                out.append(json.loads(ln))
+            if ln.startswith("open:"):
+                d = json.loads(ln[5:].strip())
+                d["status"] = "open"
+                out.append(d)
     return out
 
 
@@ -107,16 +138,22 @@ def match_finding(prop, verdict, findings):
     return None
 
 
-def finish(prop, tier, seed, level, results, t0, *, extra_cov=None, assumptions=None, functions=None, bounds=None,
+def finish(prop, tier, seed, level, results, t0, *, selftest=False, hang_is_violation=False, extra_cov=None, assumptions=None, functions=None, bounds=None,
            max_replays=6, replay_timeout=120):
     """aggregate, replay, write evidence, print verdict lines, return exit code"""
     findings = load_findings()
     classes = sum(r.get("classes", 0) for r in results)
     obs = sum(r.get("observations", 0) for r in results)
     inconclusive = [dict(i, label=r.get("label")) for r in results for i in r.get("inconclusive", [])]
-    cexs = [dict(v, label=r.get("label"), params=r.get("task", {}).get("params")) for r in results for v in r.get("violations", [])]
+    hangs = [dict(h, label=r.get("label"), params=r.get("task", {}).get("params")) for r in results for h in r.get("hangs", [])]
+    if hangs and not hang_is_violation:
+        inconclusive.append({"reason": f"the real code did not finish within the per-class budget on {len(hangs)} representative(s) (termination is decided by C13)",
+                             "rules": hangs[0]["rules"], "hist": hangs[0].get("hist"), "label": hangs[0].get("label")})
+    cexs = [dict(v, label=r.get("label"), params=r.get("task", {}).get("params"), task_full=r.get("task_full")) for r in results for v in r.get("violations", [])]
+    if hang_is_violation:
+        cexs = [dict(h, kind="hang", info={"hang": True}) for h in hangs] + cexs
     nviol_classes = len(cexs)
-    violations, known, nonrepro = [], [], []
+    violations, known, nonrepro, hazards = [], [], [], []
     seen_sig = set()
     tried = 0
     for c in cexs:
@@ -127,6 +164,8 @@ def finish(prop, tier, seed, level, results, t0, *, extra_cov=None, assumptions=
                "label": c.get("label"), "info": c.get("info")}
         v = replay_record(prop, rec, timeout=replay_timeout)
         c["replay"] = v
+        if v.get("reproduces") == "timeout" and not v.get("signature"):
+            v["signature"] = {"site": "non-termination"}
         if v.get("reproduces") in (True, "timeout") and (v.get("reproduces") is True or prop == "C13"):
             f = match_finding(prop, v, findings)
             if f is not None:
@@ -136,7 +175,15 @@ def finish(prop, tier, seed, level, results, t0, *, extra_cov=None, assumptions=
             else:
                 violations.append((c, v))
         else:
-            nonrepro.append((c, v))
+            # Did the counterexample depend on a substituted oracle answer (list order)?  Re-decide its class with
+            # the real library order; only a counterexample that survives that and still fails to replay is an error.
+            h = recheck_real_order(prop, c)
+            if h == "hazard":
+                hazards.append({"rules": c["rules"], "hist": c.get("hist"), "label": c.get("label")})
+            elif isinstance(h, dict):
+                violations.append((c, h))
+            else:
+                nonrepro.append((c, v))
     families = {}
     for r in results:
         lab = r.get("label", "")
@@ -166,6 +213,8 @@ def finish(prop, tier, seed, level, results, t0, *, extra_cov=None, assumptions=
         "violating_classes": nviol_classes,
         "counterexamples_replayed": tried,
         "non_reproducing": len(nonrepro),
+        "budget_exceeded": len(hangs),
+        "contract_level_hazards": hazards[:5],
         "known_findings_matched": [f["id"] for f, _ in known],
         "functions_encoded": functions or [],
         "bounds": bounds or {},
@@ -175,7 +224,8 @@ def finish(prop, tier, seed, level, results, t0, *, extra_cov=None, assumptions=
     ev = {"property_id": prop, "tier": tier, "seed": seed, "level": level, "coverage": cov,
           "assumptions": assumptions or [], "wall_s": round(time.time() - t0, 2), "violations": len(violations)}
     os.makedirs(os.path.join(ROOT, "evidence"), exist_ok=True)
-    with open(os.path.join(ROOT, "evidence", prop + ".json"), "w") as f:
+    os.makedirs(os.path.join(ROOT, "scratch"), exist_ok=True)
+    with open(os.path.join(ROOT, "scratch" if selftest else "evidence", prop + (".selftest.json" if selftest else ".json")), "w") as f:
         json.dump(ev, f, indent=1, default=str)
     for f_, v in known:
         print(f"KNOWN-FINDING: property={prop} {f_['what']}")
